@@ -53,6 +53,16 @@ pub fn gen_c10(rng: &mut Rng, thorough: bool, emit: &mut dyn FnMut(SchedCase)) {
     }
 }
 
+/// C10 with the probe cases that keep the body (the consumer polls inside producer critical sections)
+pub fn gen_c10_all(rng: &mut Rng, thorough: bool, emit: &mut dyn FnMut(SchedCase)) {
+    gen_c10(rng, thorough, emit);
+    gen_probe(&mut |c: SchedCase| {
+        if c.drop_after.is_none() {
+            emit(c)
+        }
+    });
+}
+
 /// Probe mode (see SchedCase::probe_held): short programs against a consumer that polls on or drops
 /// the body, with the consumer also scheduled INSIDE the producer's critical sections.
 pub fn gen_probe(emit: &mut dyn FnMut(SchedCase)) {
